@@ -1252,6 +1252,7 @@ func (r *Resolver) addSubscription(triggerID uint64, add *addSubscription) error
 		updater:       updater,
 	}
 	r.triggers[triggerID] = trig
+	updater.trig = trig
 	updater.subsFn = trig.subscriptionIds
 	r.registerSubscriptionLocked(trig, s)
 
@@ -1280,7 +1281,7 @@ func (r *Resolver) addSubscription(triggerID uint64, add *addSubscription) error
 			for _, sub := range trig.snapshotSubscriptions() {
 				sub.writeError(r.errorFormatter, sub.ctx, err, sub.resolve.Response)
 			}
-			r.doneTriggerFromUpdater(triggerID)
+			r.doneTriggerFromUpdater(trig)
 			return
 		}
 
@@ -1322,13 +1323,15 @@ func (r *Resolver) markTriggerInitialized(trig *trigger) {
 
 // doneTriggerFromUpdater performs cleanup for a trigger from a datasource/updater goroutine.
 // It detaches the trigger, runs done toClose (close completed channels), and cancels the trigger context.
-func (r *Resolver) doneTriggerFromUpdater(triggerID uint64) {
+// Only trig itself is detached: if it was already removed and another trigger now has its id, nothing happens.
+func (r *Resolver) doneTriggerFromUpdater(trig *trigger) {
+	triggerID := trig.id
 	if r.options.Debug {
 		fmt.Printf("resolver:trigger:shutdown:%d\n", triggerID)
 	}
 	verifPoint("trig.done.begin", triggerID, 0)
 	r.mu.Lock()
-	res := r.detachTriggerLocked(triggerID)
+	res := r.detachTriggerLocked(triggerID, trig)
 	if r.reporter != nil {
 		r.reporter.SubscriptionCountDec(res.removed)
 		if res.initialized {
@@ -1471,10 +1474,11 @@ func (r *Resolver) removeSubscriptionLocked(id SubscriptionIdentifier) removeRes
 }
 
 // detachTriggerLocked removes all subscriptions for the trigger and removes the trigger from resolver maps.
+// If only is not nil, the trigger is detached only if it is that very trigger (not a successor with the same id).
 // r.mu must be held by the caller.
-func (r *Resolver) detachTriggerLocked(id uint64) removeResult {
+func (r *Resolver) detachTriggerLocked(id uint64, only *trigger) removeResult {
 	trig, ok := r.triggers[id]
-	if !ok {
+	if !ok || (only != nil && trig != only) {
 		verifPoint("trig.detach", id, 0)
 		return removeResult{}
 	}
@@ -1625,7 +1629,7 @@ func (r *Resolver) shutdownResolver() {
 	triggerDec := 0
 
 	for _, id := range triggerIDs {
-		res := r.detachTriggerLocked(id)
+		res := r.detachTriggerLocked(id, nil)
 		removedTotal += res.removed
 		allToClose = append(allToClose, res.toClose...)
 		if res.triggerCancel != nil {
@@ -1974,7 +1978,9 @@ type subscriptionUpdater struct {
 	triggerID uint64
 	resolver  *Resolver
 	ctx       context.Context
-	subsFn    func() map[context.Context]SubscriptionIdentifier
+	// trig is the trigger this updater belongs to (the id alone may meanwhile name a newer trigger).
+	trig   *trigger
+	subsFn func() map[context.Context]SubscriptionIdentifier
 }
 
 func (s *subscriptionUpdater) Update(data []byte) {
@@ -2060,7 +2066,7 @@ func (s *subscriptionUpdater) Done() {
 	if s.debug {
 		fmt.Printf("resolver:subscription_updater:done:%d\n", s.triggerID)
 	}
-	s.resolver.doneTriggerFromUpdater(s.triggerID)
+	s.resolver.doneTriggerFromUpdater(s.trig)
 }
 
 func (s *subscriptionUpdater) CloseSubscription(id SubscriptionIdentifier) {
